@@ -301,7 +301,7 @@ def c11_cli(ctx, broken):
     thorough = ctx.tier == "thorough"
     threads_set = [1, 2, 3, 4, 8, 16] if thorough else [1, 2, 4]
     reps = 3 if thorough else 2
-    sample_counts = [3, 9, 10, 11, 25, 40] if thorough else [3, 11, 21]
+    sample_counts = [3, 9, 10, 11, 25, 40, 80] if thorough else [3, 11, 21]
     evals = nontriv = 0
     samples = []
     known_sigs = {k["sig"]: k["text"] for k in core.load_known() if k["property"] == "C11"}
@@ -311,6 +311,21 @@ def c11_cli(ctx, broken):
         return {"summary": {"evaluations": evals, "nontrivial": nontriv}, "violation": kw}
 
     known_hits = []
+    # deep split trees: build_and_merge in-process (one process per case: the global pool can be
+    # initialised once) against the model's split tree and the joint-build specification
+    for (n, threads) in ([(75, 8), (83, 16), (95, 16), (41, 8)] if thorough else [(72, 8), (31, 4)]):
+        k = rnd.choice([9, 15, 21])
+        base = rand_genome(rnd, 60)
+        smp = [mutate(rnd, base, rnd.randint(0, 2)) for _ in range(n)]
+        w = 64
+        line = f"bam w={w} k={k} rc=1 threads={threads} samples={'|'.join(smp)}"
+        r = core.run_impl(ctx, [line], "c11bam")[0]
+        m, s = core.run_model(ctx, [line])[0]
+        evals += 1
+        if r != m or r != s:
+            return viol("build_and_merge with this thread count differs from the serial table", threads=threads, nsamples=n, k=k,
+                        model_case=line, code=r[:400], model=m[:400], spec=s[:400])
+        nontriv += 1
     for fam, nsamp in [(f, n) for n in sample_counts for f in ("random", "isolated")]:
         k = rnd.choice([15, 17, 31, 33])
         d = fresh_dir(ctx, "c11cli")
@@ -515,15 +530,19 @@ def c09_cli(ctx, broken):
 def c19_cli(ctx, broken):
     rnd = random.Random(ctx.seed * 49979687 + 29)
     thorough = ctx.tier == "thorough"
-    files = [(64, 31, 3, 25, 1), (128, 41, 2, 15, 1)]
+    # (w, k, samples, rows, byte stride); the third file has many random 64-bit k-mers and one
+    # sample, so the encoder stores its block uncompressed (chunk type 0x01, CRC over raw data)
+    files = [(64, 7, 12, 60, 1), (128, 41, 2, 15, 1), (64, 31, 1, 90, 1)]
     if thorough:
         files += [(64, 7, 4, 60, 1), (128, 63, 3, 40, 1), (64, 31, 3, 4500, 9)]   # the last one spans several frames
     evals = nontriv = 0
     samples = []
+    chunk_types = []
     for (w, k, nsamp, nrows, stride) in files:
         case = f"skfaults w={w} k={k} rc=1 stride={stride} table={rand_table_text(rnd, k, nsamp, nrows)}"
         r = core.run_impl(ctx, [case], "c19")[0]
         ri = kvs(r)
+        chunk_types.append(int(ri["file"][20:22], 16) if len(ri["file"]) > 22 else -1)
         nf = int(ri["rejected"]) + int(ri["same"]) + int(ri["different"])
         evals += nf
         nontriv += nf
@@ -593,7 +612,11 @@ def c19_cli(ctx, broken):
                 return {"summary": {"evaluations": evals, "nontrivial": nontriv},
                         "violation": {"kind": "c19-cli", "what": f"{name} accepted a damaged file with different output", "fault": what}}
         nontriv += 1
-    return {"summary": {"evaluations": evals, "nontrivial": nontriv, "exhaustive": True,
+    if 1 not in chunk_types or 0 not in chunk_types:
+        return {"summary": {"evaluations": evals, "nontrivial": nontriv},
+                "violation": {"kind": "c19-faults", "what": f"the generated files no longer cover both a compressed and an uncompressed first chunk (types seen: {chunk_types}); the check would not exercise both CRC paths"},
+                "no_input": True}
+    return {"summary": {"evaluations": evals, "nontrivial": nontriv, "exhaustive": True, "first_chunk_types": chunk_types,
                         "what": "every truncation point and every single-bit flip of each file through the real loader (rejected or same content), frame-decoder model cross-checked against snap on a subset, random faults through every CLI subcommand"},
             "samples": samples}
 
@@ -704,16 +727,36 @@ def c20_cli(ctx, broken):
         nontriv += 1
         if r != mp[0]:
             return viol("find_cutoff differs from the least count with a(c) - b(c) < 0", case=l, code=r, model=mp[0], model_case=l)
-    # 3. whole pipeline on generated read pairs (in-process) and through the CLI
-    npairs = 40 if thorough else 4
+    # 3. whole pipeline on generated read pairs (in-process) and through the CLI;
+    #    every other pair is a synthetic boundary set: reads of exactly k bases (one split k-mer
+    #    each) replicated so that the multiplicity histogram has bins of exactly 49 / 50 / 51
+    npairs = 40 if thorough else 6
     for it in range(npairs):
         k = rnd.choice([15, 21, 31, 33])
         w = 64 if k <= 31 else 128
         rc = rnd.random() < 0.7
-        genome = rand_genome(rnd, rnd.randint(1200, 2200))
-        cov = rnd.uniform(10, 80)
-        err = rnd.uniform(0, 0.03)
-        r1, r2 = make_reads(rnd, genome, cov, err, rnd.randint(60, 100))
+        if it % 2 == 1:
+            nb = rnd.randint(4, 12)
+            bins = [rnd.choice([49, 50, 51, 120, 0, 300]) for _ in range(nb)]
+            tail = rnd.choice([[50], [50, 49], [50, 0, 49, 3], [51, 49], [49, 50, 7]])
+            bins = bins + tail
+            r1, r2 = [], []
+            for mult, nk in enumerate(bins, start=1):
+                for _ in range(nk):
+                    sq = rand_genome(rnd, k)
+                    for _c in range(mult):
+                        s_ = revcomp(sq) if (rc and rnd.random() < 0.5) else sq
+                        (r1 if rnd.random() < 0.5 else r2).append(s_ + ":" + qual_letters(rnd, k))
+            if not r1:
+                r1.append(r2.pop())
+            if not r2:
+                r2.append(r1.pop())
+            cov, err = 0.0, 0.0
+        else:
+            genome = rand_genome(rnd, rnd.randint(1200, 2200))
+            cov = rnd.uniform(10, 80)
+            err = rnd.uniform(0, 0.03)
+            r1, r2 = make_reads(rnd, genome, cov, err, rnd.randint(60, 100))
         line = f"cov w={w} k={k} rc={int(rc)} r1={','.join(r1)} r2={','.join(r2)}"
         r = kvs(core.run_impl(ctx, [line], "c20c")[0])
         evals += 1
@@ -975,6 +1018,8 @@ def c17_cli(ctx, broken):
     thorough = ctx.tier == "thorough"
     evals = nontriv = 0
     samples = []
+    known_hits = []
+    known_sigs = {k["sig"]: k["text"] for k in core.load_known() if k["property"] == "C17"}
 
     def viol(what, **kw):
         kw.update({"kind": "c17", "what": what})
@@ -1041,7 +1086,9 @@ def c17_cli(ctx, broken):
         write_fasta(os.path.join(d, "ref.fa"), [base], names=["g"])
         threads = rnd.choice([1, 2, 4, 8])
         code, out, err = ska(["build", "-o", os.path.join(d, "x"), "-k", str(k)] + files, d)
-        args = ["lo", os.path.join(d, "x.skf"), os.path.join(d, "o"), "--threads", str(threads)] + (["-r", os.path.join(d, "ref.fa")] if use_ref else [])
+        # complete samples: any -m (incl. 0: "no missing data allowed") must give the same truth
+        mval = rnd.choice(["0", "0.1", "0.25", "1"])
+        args = ["lo", os.path.join(d, "x.skf"), os.path.join(d, "o"), "--threads", str(threads), "-m", mval] + (["-r", os.path.join(d, "ref.fa")] if use_ref else [])
         code, out, err = ska(args, d)
         evals += 1
         if code != 0:
@@ -1055,6 +1102,13 @@ def c17_cli(ctx, broken):
         if use_ref:
             vcf = [l.split("\t") for l in open(os.path.join(d, "o_snps.vcf")) if not l.startswith("#")]
             got = {int(f[1]) - 1: cols[i] for i, f in enumerate(vcf)}
+            # a site at which no sample carries the reference allele gets only 4 k-mer votes in
+            # scan_variants (< 10) and is dropped "w/o position": recorded finding, reported as such
+            unpositionable = {p for p in truth if base[p] not in truth[p]}
+            dropped = {p for p in unpositionable if p not in got}
+            if dropped and "lo-ref-unpositioned" in known_sigs:
+                known_hits.append("lo-ref-unpositioned: " + known_sigs["lo-ref-unpositioned"][:160])
+                got.update({p: truth[p] for p in dropped})
             if got != truth:
                 return viol("with a reference: reported SNPs are not exactly the planted sites with the true alleles", k=k, threads=threads,
                             expected={str(a): b for a, b in truth.items()}, observed={str(a): b for a, b in got.items()}, genome=base, samples=seqs, use_ref=True)
@@ -1104,7 +1158,8 @@ def c17_cli(ctx, broken):
         if wf:
             return viol("ill-formed output on an arbitrary input: " + wf, k=k, m=m, genome=base, samples=seqs, use_ref=use_ref)
         nontriv += 1
-    return {"summary": {"evaluations": evals, "nontrivial": nontriv, "families_rejected_by_uniqueness_check": tries - done,
+    return {"known": sorted(set(known_hits)),
+            "summary": {"evaluations": evals, "nontrivial": nontriv, "families_rejected_by_uniqueness_check": tries - done, "known_finding_hits": len(known_hits),
                         "what": "build_graph vs model; planted isolated-SNP families ((k-1)-mers unique on both strands, SNPs >= 2k apart and from the ends) with and without reference, threads 1-8: exact truth; arbitrary families (close SNPs, indels, missing data, several -m): well-formedness of alignment, VCF and pseudo-genomes"},
             "samples": samples}
 
